@@ -47,11 +47,19 @@ class BytesScenario(explore.Scenario):
             size, data = 4, b""
         else:
             size, data = 4, BASE
-        b = g.ByteInterval(address=5, size=size, contents=data, uuid=U(3),
+        # B and its neighbour B2 are built from ONE caller-owned bytearray:
+        # nothing done to B may show in B2 (or in the caller's object)
+        shared = bytearray(data)
+        b = g.ByteInterval(address=5, size=size, contents=shared, uuid=U(3),
                            section=s)
+        b2 = g.ByteInterval(address=50, size=max(size, len(data)),
+                            contents=shared, uuid=U(6), section=s)
+        w.shared = shared
+        w.data2 = bytes(data)
         k1 = g.CodeBlock(size=1, offset=0, uuid=U(4), byte_interval=b)
         k2 = g.DataBlock(size=3, offset=1, uuid=U(5), byte_interval=b)
-        w.objs = {"I": ir, "M": m, "S": s, "B": b, "K1": k1, "K2": k2}
+        w.objs = {"I": ir, "M": m, "S": s, "B": b, "K1": k1, "K2": k2,
+                  "B2": b2}
         w.size = size
         w.data = bytes(data)
         if init == "loaded":
@@ -64,10 +72,11 @@ class BytesScenario(explore.Scenario):
         ir = w.g.IR.load_protobuf_file(io.BytesIO(buf.getvalue()))
         m = ir.modules[0]
         s = next(iter(m.sections))
-        b = next(iter(s.byte_intervals))
+        ivs = {x.uuid: x for x in s.byte_intervals}
+        b = ivs[U(3)]
         blocks = {x.uuid: x for x in b.blocks}
         w.objs = {"I": ir, "M": m, "S": s, "B": b, "K1": blocks[U(4)],
-                  "K2": blocks[U(5)]}
+                  "K2": blocks[U(5)], "B2": ivs[U(6)]}
 
     def ops(self, w):
         out = []
@@ -194,12 +203,22 @@ class BytesScenario(explore.Scenario):
         if len(b.contents) > b.size:
             v.append(("C19/stored-exceeds-size",
                       "%d stored, size %d" % (len(b.contents), b.size)))
+        # --- frame: the neighbouring interval and the caller's buffer
+        b2 = w.objs["B2"]
+        if bytes(b2.contents) != w.data2 or len(b2.contents) > b2.size:
+            v.append(("C19/neighbour-interval-bytes-changed",
+                      "B2 holds %r (size %r), expected %r"
+                      % (bytes(b2.contents), b2.size, w.data2)))
+        if bytes(w.shared) != w.data2:
+            v.append(("C19/constructor-argument-mutated",
+                      "caller's bytearray is now %r" % bytes(w.shared)))
         # --- save / load back
         try:
             buf = io.BytesIO()
             w.objs["I"].save_protobuf_file(buf)
             ir2 = w.g.IR.load_protobuf_file(io.BytesIO(buf.getvalue()))
-            b2 = next(iter(next(iter(ir2.modules[0].sections)).byte_intervals))
+            b2 = [x for x in next(iter(ir2.modules[0].sections)).byte_intervals
+                  if x.uuid == b.uuid][0]
             if (b2.size, bytes(b2.contents), b2.address) != (
                     b.size, bytes(b.contents), b.address):
                 v.append(("C19/save-load-differs",
